@@ -7,6 +7,8 @@
 (* harness observed after feeding Frame(logical) to the driver in `mode`:   *)
 (*   plain / snappy            framer level (readHeader, readFrame,         *)
 (*                             parseFrame, Iter), body compressed or not    *)
+(*   sess-prep[-z]             a PREPARED response as the application sees  *)
+(*                             it (QueryInfo handed to a binding function)  *)
 (*   sess-full / sess-skip[-z] through a live session that prepared the     *)
 (*                             statement; -skip: the driver asked the       *)
 (*                             server to omit the metadata; -z: compressed  *)
@@ -20,8 +22,9 @@ Init == l = 1
 Next == UNCHANGED l
 Spec == Init /\ [][Next]_l
 
-ModeComp(mode) == mode \in {"snappy", "sess-full-z", "sess-skip-z"}
-ModeSess(mode) == mode \in {"sess-full", "sess-skip", "sess-full-z", "sess-skip-z"}
+ModeComp(mode) == mode \in {"snappy", "sess-full-z", "sess-skip-z", "sess-prep-z"}
+ModeSess(mode) == mode \in {"sess-full", "sess-skip", "sess-full-z", "sess-skip-z", "sess-prep", "sess-prep-z"}
+ModeApi(mode) == mode \in {"sess-prep", "sess-prep-z"}
 
 MetaAgrees(seen, sent) ==
   /\ DOMAIN seen = DOMAIN sent
@@ -34,7 +37,7 @@ FieldAgrees(k, seen, sent) ==
 
 \* the fields of the view that contradict the frame
 Diff(rec) ==
-  LET exp == ExpView(rec.logical, rec.typed, ModeComp(rec.mode), ModeSess(rec.mode))
+  LET exp == ExpView(rec.logical, rec.typed, ModeComp(rec.mode), ModeSess(rec.mode), ModeApi(rec.mode))
       vw == rec.view
       top == {k \in DOMAIN exp \ {"f"} : IF k \in DOMAIN vw THEN vw[k] # exp[k] ELSE TRUE}
       inner == IF top # {} THEN {}
